@@ -228,6 +228,8 @@ def engine_property(prop, tier, theorems, need, kernel_theorems, fss, modes, wan
     emit_tags = {'C01': {'ok-item'}, 'C02': {'err-end'}, 'C03': {'tiling'}, 'C07': {'partial'}}.get(prop)
     if emit_tags:
         t0 = _t.time(); emitted_stage(res, tier, prop, emit_tags); log('stage emitted %.1fs' % (_t.time() - t0))
+    if prop == 'C03':
+        c03_empty_match_stage(res, tier)
     if prop == 'C01':
         t0 = _t.time()
         repo_caps, rand_caps = ce.corpora(tier, res)
@@ -547,6 +549,35 @@ def check_C02(tier):
                            {'err-end', 'spec-err-end'}, {'err-end'},
                            RULE_ENGINE % ('dfa_ok+sim_ok+exact_ok (liveness ranks)', 'Err items: start, end (rounded by find_boundary for str), resumption point'),
                            ASSUME_ENGINE + ['error *values* (Default / error callback) are covered by C13, not here'])
+
+
+def c03_empty_match_stage(res, tier):
+    """C03, last clause: no accepted definition has a pattern (token, regex or skip, either source mode) that matches the
+    empty string — such a lexer makes no progress.  Every nullable pattern of the generated family c19_nullable must be
+    rejected, and no accepted definition of the corpora may match right after the DFA start state."""
+    nul = os.path.join(cache_dir('gen', 'c19-nullable'), 'nullable.rs')
+    open(nul, 'w').write('\n'.join(c19_nullable()) + '\n')
+    caps = build.capture_files([nul], 'c03-nullable')
+    repo_caps, rand_caps = ce.corpora(tier, res)
+    n = 0
+    for c in list(caps) + list(repo_caps) + list(rand_caps):
+        if c.panic is not None or not c.accepted or not c.dfa or c.dfa.get('start') is None:
+            continue
+        dfa = capmod.Dfa(c)
+        hit = None
+        for u in [256] + list(range(256)):
+            ms = dfa.match(dfa.step(dfa.start, u))
+            if ms:
+                hit = (u, list(ms)); break
+        res.count('accepted_definitions_checked_for_empty_match')
+        res.oblige(hit is None)
+        if hit:
+            n += 1
+            if n <= 4:
+                l = c.leaves[hit[1][0]] if hit[1] and hit[1][0] < len(c.leaves) else None
+                res.violation(None, '%s is accepted although pattern %s matches the empty string: lexing an input on which nothing else matches makes no progress' % (c.id, l['src'] if l else hit[1]),
+                              dict(definition=c.source, leaves=hit[1], input_hex='21', input="b'!' (any byte that starts no token)"))
+    return n
 
 
 def check_C03(tier):
@@ -1250,7 +1281,7 @@ def check_C04(tier):
     # K2 on valid UTF-8 probes: spans/slices/remainder valid; forbid_unsafe build must not panic
     fss = ['tc', 'tcsafe']
     sets = ce.compiled_sets(tier, fss)
-    mism = ce.run_k2(res, sets, fss, tier, modes=(0,), drv=drv)
+    mism = ce.run_k2(res, sets, fss, tier, modes=(0, 1), drv=drv)     # ordinary and partial lexers (error ends are rounded in both)
     enums_by_label = {label: enums for label, h, enums in sets}
     n = 0
     for label, fs, en, mode, p, tags, raw, mdl in mism:
@@ -1348,6 +1379,24 @@ def all_caps_with_dfa(tier, res, extra_files=()):
     return [c for c in list(repo_caps) + list(rand_caps) + list(extra) if c.panic is None and c.dfa and c.dfa.get('start') is not None and c.leaves]
 
 
+def independent_prios(c):
+    """Leaf priorities as the attributes state them (independent attribute scan): the explicit priority = n, else
+    2 x byte length for a literal token, else the pattern's default priority (itself checked against the Coq rule by C09)."""
+    if len(c.attrs) != len(c.leaves):
+        return None
+    out = []
+    for l in c.leaves:
+        a = c.attrs[l['idx']]
+        ex = a.get('prio', '-')
+        if ex.isdigit():
+            out.append(int(ex))
+        elif a.get('kind') == 'token' and a.get('lit') is not None:
+            out.append(2 * (0 if a['lit'] == '-' else len(a['lit']) // 2))
+        else:
+            out.append(l['default_prio'])
+    return out
+
+
 def check_C08(tier):
     res = Result('C08', tier)
     framework(res, ['C08_tie_iff_shared', 'C08_no_silent_choice', 'C08_tie_has_ambiguous_string'])
@@ -1360,7 +1409,7 @@ def check_C08(tier):
         parts = ['RH', len(H)]
         for q, (p, u, n) in sorted(H.items()):
             parts += [q, p, u, n]
-        jobs.append(engine.dfa_header(c) + [' '.join(map(str, parts)), 'TI %d' % i])
+        jobs.append(engine.dfa_header(c, independent_prios(c)) + [' '.join(map(str, parts)), 'TI %d' % i])
     out = engine.parse_model_output(engine.run_modeldrv(drv, certs._batch(jobs)))
     ntie = 0; nacc = 0
     for i, c in enumerate(caps):
@@ -1560,6 +1609,13 @@ def check_C10(tier):
     for i, pat in enumerate(pats):
         defs.append(('RegI%d' % i, '#[derive(Logos)] enum RegI%d { #[regex(%s, ignore(case))] A, #[token("0")] Z }' % (i, fg.rust_str_lit(pat)), 'regi', dict(pat=pat)))
         defs.append(('SkipI%d' % i, '#[derive(Logos)] #[logos(skip(%s, ignore(case)))] enum SkipI%d { #[token("0")] Z }' % (fg.rust_str_lit(pat), i), 'skipi', dict(pat=pat)))
+    # ignore(case) also covers the text that comes from a subpattern
+    for i, (sub, body, pat, inl) in enumerate([('xd', '[0-9a-f]', '0x(?&xd)+', '0x(?u:[0-9a-f])+'), ('kw', 'select|from', '(?&kw) ', '(?u:select|from) '),
+                                               ('u', 'kb|mb', '[0-9]+(?&u)', '[0-9]+(?u:kb|mb)')]):
+        defs.append(('RegSub%d' % i, '#[derive(Logos)] #[logos(subpattern %s = %s)] enum RegSub%d { #[regex(%s, ignore(case))] A, #[token("~")] Z }'
+                     % (sub, fg.rust_str_lit(body), i, fg.rust_str_lit(pat)), 'regi', dict(pat=inl)))
+        defs.append(('SkipSub%d' % i, '#[derive(Logos)] #[logos(subpattern %s = %s)] #[logos(skip(%s, ignore(case)))] enum SkipSub%d { #[token("~")] Z }'
+                     % (sub, fg.rust_str_lit(body), fg.rust_str_lit(pat), i), 'skipi', dict(pat=inl)))
     for i in range(6):
         lit = ''.join(rng.choice('abckKzs ') for _ in range(rng.randint(1, 3)))
         defs.append(('SkipLI%d' % i, '#[derive(Logos)] #[logos(skip(%s, ignore(case)))] enum SkipLI%d { #[token("0")] Z }' % (fg.rust_str_lit(fg.regex_escape(lit)), i), 'skipi', dict(pat=fg.regex_escape(lit))))
@@ -1721,6 +1777,9 @@ def check_C11(tier):
         for p in pats:
             bytes_regex_cases.add(len(cases))
             cases.append((subs, p, False))
+    for body in ['[0-9]', '[a-f]', 'q|r', 'é', '[0-9]']:
+        cases.append(([('d', body, True)], '(?&d)+x', True))
+        cases.append(([('d', body, True), ('dd', '(?&d)(?&d)', True)], '(?&dd)y', True))
     # random combinations of references inside small contexts
     ctxs = ['%s', 'a%sb', '(%s)+', '%s|z', 'x(%s|y)', '%s%s',
             # multi-byte characters in the referencing pattern and a short tail after the last reference (byte vs char offsets)
@@ -1894,9 +1953,10 @@ def check_C18(tier):
         groups = sorted(groups, key=lambda g: -len(g[1]))[:40] + groups[40:80]
     # #[logos(...)] items: permutations that keep subpatterns before their use
     litems = ['skip " "', 'skip("#", priority = 9)', 'subpattern d = "[0-9]"', 'subpattern dd = "(?&d)(?&d)"', 'extras = u8', 'error = E', 'utf8 = false',
-              'skip b"\\xFF+"']
+              'skip b"\\xFF+"', 'export_dir = "target/logos-export"']
     lgroups = []
-    forced = [['skip b"\\xFF+"', 'utf8 = false'], ['skip b"\\xFF+"', 'utf8 = false', 'extras = u8'], ['utf8 = false', 'skip " "', 'error = E']]
+    forced = [['skip b"\\xFF+"', 'utf8 = false'], ['skip b"\\xFF+"', 'utf8 = false', 'extras = u8'], ['utf8 = false', 'skip " "', 'error = E'],
+              ['export_dir = "target/logos-export"', 'skip " "'], ['export_dir = "target/logos-export"', 'extras = u8', 'subpattern d = "[0-9]"']]
     for it_ in range(12 if tier == 'quick' else 120):
         k = rng.randint(2, 5)
         sub = forced[it_] if it_ < len(forced) else rng.sample(litems, k)
@@ -1991,6 +2051,10 @@ def c17_sources(rng, n):
         if rng.random() < 0.3: attrs.insert(rng.randint(0, len(attrs)), '#[derive(PartialOrd)]')
         if rng.random() < 0.5: attrs.append('#[logos(skip " +")]')
         if rng.random() < 0.3: attrs.append('#[allow(dead_code)]')
+        if rng.random() < 0.35:
+            # a logos attribute with several kept attributes after it (their written order must survive)
+            attrs.insert(rng.randint(0, max(0, len(attrs) - 2)), '#[logos(extras = u8)]')
+            attrs += ['#[allow(clippy::all)]', '/// trailing doc line one', '/// trailing doc line two', '#[deny(unused_must_use)]'][:rng.randint(2, 4)]
         vs = []
         for j in range(rng.randint(1, 4)):
             va = []
@@ -1998,6 +2062,8 @@ def c17_sources(rng, n):
             va.append('#[token("t%d")]' % j if rng.random() < 0.5 else '#[regex("r%d[a-z]+")]' % j)
             if rng.random() < 0.3: va.append('#[allow(unused)]')
             if rng.random() < 0.2: va.append('#[regex("s%d[0-9]")]' % j)
+            if rng.random() < 0.3:
+                va += ['/// first line after the pattern', '/// second line', '#[cfg(all())]'][:rng.randint(2, 3)]
             body = 'V%d' % j
             if rng.random() < 0.25:
                 body += '(%s&\'a str)' % ('#[allow(unused)] ' if rng.random() < 0.5 else '')
